@@ -302,6 +302,10 @@ def targets(tier):
                       note='composition: one ml::tune task by the clauses C13 proves + the real callback through its proved contract'))
     lin.append(Target('learner_evaluate', learner_evaluate_fns, 'specs/C11/levaluate.h', enforce='learner_evaluate', enums=EN, loops=1))
     lin.append(Target('stats_percentile', lambda: [percentile_fn()], 'specs/C11/stats.h', enforce='stats_percentile'))
-    return lin + [Target('gmodel_do_predict', lambda: [gboost_predict_fn()], P, enforce='gmodel_do_predict'),
+    out = lin + [Target('gmodel_do_predict', lambda: [gboost_predict_fn()], P, enforce='gmodel_do_predict'),
             Target('learner_predict3', lambda: [learner_fns()['p3']], P, enforce='learner_predict3'),
             Target('learner_predict2', lambda: [learner_fns()['p2'], learner_fns()['p3']], P, enforce='learner_predict2', replace=['learner_predict3'])]
+    # quick tier: everything but the composition harness of the gboost side (it re-compiles the whole ::fit unit for four assertions that restate
+    # the callback's contract; the callback target itself stays quick)
+    heavy = {'gboost_tune_task'}
+    return [t for t in out if tier == 'thorough' or t.name not in heavy]
